@@ -50,6 +50,11 @@ TABLE = {
             "Held on the generated trees x modes x thread counts x repetitions: every multi-threaded output was a permutation of the single-threaded per-file blocks; the evidence reports how many distinct block orders were actually observed.",
             "The OS scheduler chooses the interleavings; reach comes from size skew and the slow preprocessor, not from controlled scheduling.",
             "DESIGN.md §3 C08"),
+    "C09": (True, "exploration",
+            "runtime monitoring of rg's text and JSON output: every printed record is parsed back into (line number, column, offset, text) and checked against the file through an independent line splitter and the reference regex engine; JSON messages checked for slice-exactness, text/base64 choice, offsets and message grammar",
+            "Held on the generated cases x output modes: printed text = the file's line at the printed number, offsets and columns identify the line and its leftmost match, JSON lines/submatches are exact slices (text iff valid UTF-8), --passthru reproduces the input, messages form begin (match|context)* end.",
+            "Lines hit by the regex-engine quirk recorded under C01 (Unicode word boundary next to invalid UTF-8) are skipped for the column check; column checked on the first line of a multi-line block only.",
+            "DESIGN.md §3 C09"),
     "C11": (True, "exploration",
             "runtime monitoring of the built RegexMatcher's promises (line_terminator, non_matching_bytes, find_candidate_line, is_match) against a reference engine on language-directed and exhaustive small-alphabet lines; the two grep-regex HIR hooks steer the sampler",
             "No witness found among the lines produced: terminator never inside a match, language over terminator-free lines unchanged, declared non-matching bytes never inside a match, candidate search never passes over a matching line; patterns requiring the terminator were rejected. The 'over ALL lines' quantifier is only approximated (see level_note).",
